@@ -110,7 +110,7 @@ def grid_shape(g):
 
 
 FORMS = ["shaped", "timeaxis", "flat", "list", "wrongsize", "wrongshape", "quantity", "foreign", "incompatible", "shared", "sharedview",
-         "maskedarr"]   # maskedarr: a masked array (one cell hidden) under the output's flexible mask; spilled, it takes the pickle path
+         "maskedarr", "qtimeaxis"]   # qtimeaxis: a quantity in the output's units that already has the time axis; maskedarr: a masked array (one cell hidden) under the output's flexible mask; spilled, it takes the pickle path
 
 
 def gen_case(rng):
@@ -126,7 +126,7 @@ def gen_case(rng):
     for _ in range(n):
         if not pubs or rng.random() < 0.45:
             t = t + rng.choice([1, 2, 3, 5, 7, 9, 10]) * scale if pubs else t
-            form = rng.choices(FORMS, weights=[30, 10, 14, 8, 4, 4, 8, 8, 3, 4, 3, 9])[0]
+            form = rng.choices(FORMS, weights=[30, 10, 14, 8, 4, 4, 8, 8, 3, 4, 3, 9, 6])[0]
             if g["kind"] == "nogrid" and form == "wrongsize":
                 form = "shaped"  # NoGrid fixes the rank only
             pu = None
@@ -154,6 +154,13 @@ def gen_case(rng):
             if pubs[0] <= tt <= pubs[-1]:
                 last_req = tt
     case = {"grid": g, "out_units": ou, "in_units": iu, "events": events}
+    if g["kind"] == "grid" and not g.get("crev") and not g.get("lay") and rng.random() < 0.2:
+        case["omask"] = True   # the producer's metadata declare a fixed mask (its first cell): every delivery hides it
+        for ev in events:
+            # (how a payload of the wrong size or shape is refused under a fixed mask — numpy's own mask error — is not
+            # the statement's business; masked payloads keep to the cases without a fixed mask)
+            if ev["op"] == "push" and ev["form"] in ("wrongsize", "wrongshape", "maskedarr"):
+                ev["form"] = "shaped"
     if rng.random() < 0.25:
         # the output spills to disk beyond k payloads (C10 owns transparency; here: what the link refuses / serves)
         case["mem_limit_payloads"] = rng.choice([0, 1, 1, 2])
@@ -204,6 +211,10 @@ def payload(case, ev, prev_arr):
             m = np.zeros(size, dtype=bool)
             m[ev["val"] % size] = True
             obj = np.ma.masked_array(arr.copy(), m.reshape(shp))
+    elif form == "qtimeaxis":
+        arr = base.reshape([1] + shp)
+        units = case["out_units"]
+        obj = fm.UNITS.Quantity(arr, units)
     elif form == "timeaxis":
         obj = arr = base.reshape([1] + shp)
     elif form == "flat":
@@ -242,7 +253,12 @@ def payload(case, ev, prev_arr):
 
 def run_impl(case):
     g = mk_grid(case["grid"])
-    out = fm.Output(name="out", info=fm.Info(time=T(0), grid=g, units=case["out_units"]))
+    okw = {}
+    if case.get("omask"):
+        m0 = np.zeros(tuple(int(n) for n in g.data_shape), dtype=bool)
+        m0.reshape(-1)[0] = True
+        okw["mask"] = m0
+    out = fm.Output(name="out", info=fm.Info(time=T(0), grid=g, units=case["out_units"], **okw))
     g2 = mk_grid(case["grid"], consumer=True)
     inp = fm.Input(name="in", info=fm.Info(time=T(0), grid=g2, units=case["in_units"]))
     out >> inp
@@ -346,7 +362,7 @@ def oracle(case, impl):
                 org = r.get("origin") or {"val": ev["val"], "form": ev["form"]}
                 pubs.append((ev["t"], dict(ev, val=org["val"], layout=org["form"])))
             else:
-                if form in ("shaped", "timeaxis", "flat", "list", "quantity", "foreign", "maskedarr") or \
+                if form in ("shaped", "timeaxis", "flat", "list", "quantity", "foreign", "maskedarr", "qtimeaxis") or \
                         (form in ("shared", "sharedview") and is_conv(case, ev)):
                     return ("well-formed payloads must be accepted", {"event": ev, "got": r})
                 if r["err"] != "FinamDataError":
@@ -390,8 +406,10 @@ def oracle(case, impl):
                 src_u = pev["punits"] if pev.get("punits") is not None else case["out_units"]
                 exp = [conv(src_u, case["in_units"], x) for x in arr.reshape(-1)]
                 hidden = [False] * len(exp)
-                if pev["layout"] == "maskedarr" and len(exp) >= 2:
+                if pev["layout"] == "maskedarr" and len(exp) >= 2 and not case.get("omask"):
                     hidden[pev["val"] % len(exp)] = True   # (C order = the order of the producer's array)
+                if case.get("omask"):
+                    hidden[0] = True   # the mask of the metadata is applied to every publication (a payload's own mask is replaced? no: kept out of these cases)
                 if all((a is None) == h and (h or close(a, float(b))) for a, b, h in zip(got["data"], exp, hidden)):
                     ok_any = True
             if not ok_any:
@@ -404,7 +422,7 @@ def oracle(case, impl):
             continue
         ev = r.get("eff", ev)
         if ev["form"] in ("shared", "sharedview") and not is_conv(case, ev) \
-                and prev_ok in ("shaped", "timeaxis", "flat", "quantity", "foreign", "shared", "sharedview") \
+                and prev_ok in ("shaped", "timeaxis", "flat", "quantity", "foreign", "shared", "sharedview", "qtimeaxis") \
                 and r.get("prev_in_ram", True):
             if "ok" in r:
                 return ("publishing an array that shares memory with the previous publication is refused",
